@@ -223,6 +223,11 @@ pub enum MutOp {
     Add(usize),
     /// retarget (or create) a symbolic link
     Retarget(String),
+    /// descriptor exhaustion: from now on this process can open only this many more descriptors
+    /// (`opendir` fails with EMFILE beyond that); the mutation's path is unused
+    FdLimit(usize),
+    /// the descriptor limit is lifted again
+    FdRestore,
 }
 
 #[derive(Serialize, Deserialize, Clone, Debug, PartialEq, Eq)]
